@@ -14,11 +14,11 @@ SIDES = ["c", "cpp", "rust"]
 NVAL = 3
 
 
-def emit(idlc, root):
+def emit(idlc, root, extra=()):
     idl = os.path.join(root, "l2.idl")
     outs = [("c", False, "l2.h"), ("c", True, "l2_invoke.h"), ("cpp", False, "l2.hpp"), ("cpp", True, "l2_invoke.hpp")]
     for lang, skel, name in outs:
-        r = scrape.idlc_run(idlc, idl, os.path.join(root, name), lang, skel)
+        r = scrape.idlc_run(idlc, idl, os.path.join(root, name), lang, skel, extra=extra if lang == "c" else ())
         if r[0] != 0:
             return "%s%s: %s" % (lang, " skel" if skel else "", r[2][-300:])
     rs = os.path.join(root, "rs")
@@ -152,7 +152,8 @@ def run(ctx_):
         root = os.path.join(work, "b%d" % b)
         os.makedirs(root, exist_ok=True)
         open(os.path.join(root, "l2.idl"), "w").write(l2obj.render_idl(methods))
-        err = emit(ctx_["idlc"], root)
+        # every other batch: the C stub and skeleton generated with --no-typed-objects (type names only)
+        err = emit(ctx_["idlc"], root, extra=(["--no-typed-objects"] if b % 2 == 1 else []))
         if err:
             return b, {"emit_failed": err}
         return b, build(root, methods, sides=SIDES)
